@@ -4,7 +4,8 @@ import CoclsModel.AggregatorProofs
 
 Model: `CoclsModel/Aggregator.lean` (small-step model of `generator_aggregator`: one `Op.agg` step per queue lock
 region of the aggregator coroutine / of the controller destructor, `Op.resolve k` = the asynchronous operation source
-`k` awaits completes on any thread, `Op.next a` = an access of the consumer in any style, `Op.destroy`).
+`k` awaits completes on any thread, `Op.next a` = an access of the consumer in any style, `Op.destroy coro` = the
+consumer drops the aggregate, from plain code or from inside a running coroutine).
 Every theorem quantifies over *all* configurations (`Cfg`: any number of sources, arbitrary scripts — finite or
 infinite, synchronous or asynchronous, throwing or not) and *all* operation lists, i.e. all interleavings of
 aggregator steps, source completions and consumer operations.
@@ -17,6 +18,10 @@ def Reachable (c : Cfg) (s : State) : Prop := ∃ ops, s = run c init ops
 theorem reachable_inv {c : Cfg} {s : State} (h : Reachable c s) : Inv c s := by
   obtain ⟨ops, rfl⟩ := h
   exact inv_run c init ops (inv_init c)
+
+theorem reachable_step {c : Cfg} {s : State} (h : Reachable c s) (op : Op) : Reachable c (step c s op) := by
+  obtain ⟨ops, rfl⟩ := h
+  exact ⟨ops ++ [op], by simp [run, List.foldl_append]⟩
 
 /-- **Per-source order, exactly once (any time).**  What the consumer has received from source `k`, followed by the
 at most one value of `k` waiting in the completion queue, is exactly the sequence of values source `k` has yielded so
@@ -186,20 +191,91 @@ theorem c14_arg_goes_to_last_returned (c : Cfg) (s : State) (k a : Nat) (hy : s.
     (aggStep c (stepNext c s a)).got k = s.got k ++ [a] ∧
     (∀ j, j ≠ k → (aggStep c (stepNext c s a)).got j = s.got j) ∧
     (aggStep c (stepNext c s a)).out = s.out := by
-  have hn : stepNext c s a = { s with ag := Ag.recharge k a, calls := s.calls ++ [a] } := by
+  have hn : stepNext c s a = { s with ag := Ag.recharge k a, calls := s.calls ++ [a], aggArg := some a } := by
     unfold stepNext; simp [hy]
   rw [hn]
   obtain ⟨g1, _, g3, _⟩ := srcRun_ghost c
-    { s with ag := Ag.recharge k a, calls := s.calls ++ [a], got := upd s.got k (s.got k ++ [a]) } k
+    { s with ag := Ag.recharge k a, calls := s.calls ++ [a], aggArg := some a, got := upd s.got k (s.got k ++ [a]),
+             cell := upd s.cell k (some a) } k
   refine ⟨rfl, ?_, ?_, ?_⟩ <;> simp only [aggStep, charge]
   · rw [g1]; simp
   · intro j hj; rw [g1]; simp [hj]
   · rw [g3]
 
+/-- **The argument stays with its source for the whole step.**  A generator carries its argument by reference, and a
+source may fetch it again at any time before its next `co_yield` — in particular after an asynchronous wait
+(`Act.awaitRead`: `co_await …; co_yield nullptr`), when the aggregator has long gone on, has served other accesses and
+has handed other arguments to other sources.  Every such fetch `(i, v)` logged for source `k` (made when `k` had
+received `i` arguments) returned a live object (`v = some a`) holding exactly the `i`-th argument source `k` received —
+never a destroyed object, never an argument routed to another source. -/
+theorem c14_arg_stable {c : Cfg} {s : State} (h : Reachable c s) (k i : Nat) (v : Option Nat)
+    (hm : (i, v) ∈ s.late k) : ∃ a, v = some a ∧ 0 < i ∧ (s.got k)[i - 1]? = some a :=
+  (reachable_inv h).cells.late_ok k (i, v) hm
+
+/-- … and by `c14_arg_routing` that is the argument of the access made right after the value of source `k` was
+returned that the source is working on (or of the first access): late fetches obey the routing rule too. -/
+theorem c14_arg_stable_routed {c : Cfg} {s : State} (h : Reachable c s)
+    (h1 : ∀ i a, s.ag ≠ Ag.charging i a) (h2 : ∀ j a, s.ag ≠ Ag.recharge j a) (k : Nat) (hk : k < c.n)
+    (i : Nat) (v : Option Nat) (hm : (i, v) ∈ s.late k) :
+    0 < i ∧ v ≠ none ∧ v = (routed s.calls s.out k)[i - 1]? := by
+  obtain ⟨a, rfl, hpos, hget⟩ := c14_arg_stable h k i v hm
+  rw [c14_arg_routing h h1 h2 k hk] at hget
+  exact ⟨hpos, by simp, hget.symm⟩
+
+/-- the fetch really happens and is logged: when the wait of a source whose script asks for it (`rereads`) is over,
+the source reads, before anything else, the argument it was charged with last -/
+theorem c14_late_fetch_returns_last_charge {c : Cfg} {s : State} (h : Reachable c s) (k : Nat)
+    (hk : s.st k = SSt.inflight) (hr : rereads c s k = true) :
+    (step c s (Op.resolve k)).late k = s.late k ++ [((s.got k).length, (s.got k).getLast?)]
+    ∧ (s.got k).getLast? ≠ none := by
+  have hi := (reachable_inv h).cells
+  have hne : s.got k ≠ [] := hi.charged k (by simp [hk])
+  constructor
+  · obtain ⟨_, a2, _, _⟩ := srcRun_args c (lateRead c s k) k
+    simp only [step, stepResolve, hk, if_true]
+    rw [a2]
+    simp [lateRead, hr, hi.cell_last k]
+  · intro hn
+    exact hne (List.getLast?_eq_none_iff.mp hn)
+
+/-- **AS-IS witness, /repo commit 2ec61ae** (`lateReadAsIs`: the sources were given a reference to the aggregator's
+block-local copy of the argument).  Source 0 waits, then fetches its argument again; meanwhile the aggregator has left
+the block that charged it: the source reads a DESTROYED object (`none`) instead of the 100 it was charged with. -/
+def exCfgR : Cfg where
+  n := 2
+  script := fun k p =>
+    match k, p with
+    | 0, 0 => some Act.awaitRead
+    | 0, 1 => some (Act.yield 10)
+    | 1, _ => some (Act.yield 20)
+    | _, _ => none
+
+theorem c14_arg_asis_reads_destroyed_object :
+    (runAsIs exCfgR init ([Op.next 100] ++ List.replicate 4 Op.agg ++ [Op.resolve 0])).late 0 = [(1, none)]
+    ∧ (runAsIs exCfgR init ([Op.next 100] ++ List.replicate 4 Op.agg ++ [Op.resolve 0])).got 0 = [100] := by decide
+
+/-- **AS-IS witness, /repo commit 2ec61ae, second form**: the next access (argument 101, routed to source 1 whose value
+was returned last) has resumed the aggregator when source 0's wait completes on another thread: source 0, charged
+with 100, reads 101 — an argument that belongs to another source. -/
+theorem c14_arg_asis_reads_foreign_argument :
+    (runAsIs exCfgR init ([Op.next 100] ++ List.replicate 4 Op.agg ++ [Op.next 101, Op.resolve 0])).late 0 = [(1, some 101)]
+    ∧ (runAsIs exCfgR init ([Op.next 100] ++ List.replicate 4 Op.agg ++ [Op.next 101, Op.resolve 0])).got 0 = [100] := by
+  decide
+
+/-- the repaired code on the same two inputs: the source reads its own 100 -/
+example : (run exCfgR init ([Op.next 100] ++ List.replicate 4 Op.agg ++ [Op.resolve 0])).late 0 = [(1, some 100)]
+    ∧ (run exCfgR init ([Op.next 100] ++ List.replicate 4 Op.agg ++ [Op.next 101, Op.resolve 0])).late 0 = [(1, some 100)] := by
+  decide
+
 /-- **Destruction waits.**  In every reachable state no source frame has been destroyed while the source was in
 flight (`badDestroy` records the sources that were in flight when the frames were destroyed). -/
 theorem c14_destroy_waits_and_frees {c : Cfg} {s : State} (h : Reachable c s) : s.badDestroy = [] :=
   (reachable_inv h).ctl.bad
+
+/-- **Destruction never aborts**, whatever the context the aggregate is dropped from (`Op.destroy true`: by a running
+coroutine, i.e. with an active coroutine queue on the destroying thread). -/
+theorem c14_destroy_never_aborts {c : Cfg} {s : State} (h : Reachable c s) : s.ag ≠ Ag.aborted :=
+  (reachable_inv h).ctl.no_abort
 
 /-- the controller destructor blocks only while a source is really in flight (it cannot block forever on its own) -/
 theorem c14_drain_blocks_only_for_inflight {c : Cfg} {s : State} (h : Reachable c s) (hw : s.ag = Ag.drainWait) :
@@ -237,6 +313,37 @@ theorem c14_drain_blocks_only_for_inflight {c : Cfg} {s : State} (h : Reachable 
     intro hk2
     exact hkj (hi.cur_unique k j hk2 hcur)
   · exact ⟨j, hj, key j hj haj hcur⟩
+
+/-- **Destruction waits in every context.**  With sources outstanding and nothing in the completion queue, the
+controller destructor blocks — it neither aborts nor goes on to destroy frames — and some source is really in flight
+then; this holds for a destruction from plain code and from a running coroutine alike (`s.dcoro` is not consulted). -/
+theorem c14_destroy_blocks_in_any_context {c : Cfg} {s : State} (h : Reachable c s) (hd : s.ag = Ag.draining)
+    (hc : 1 < s.count) (hq : s.q = []) :
+    (aggStep c s).ag = Ag.drainWait ∧ (aggStep c s).badDestroy = [] ∧ ∃ k, k < c.n ∧ s.st k = SSt.inflight := by
+  have hn : aggStep c s = { s with ag := Ag.drainWait } := by
+    unfold aggStep; simp [hd, hc, hq]
+  have hr : Reachable c (aggStep c s) := reachable_step h Op.agg
+  refine ⟨by rw [hn], c14_destroy_waits_and_frees hr, ?_⟩
+  obtain ⟨k, hk, hst⟩ := c14_drain_blocks_only_for_inflight hr (by rw [hn])
+  rw [hn] at hst
+  exact ⟨k, hk, hst⟩
+
+/-- the blocked destructor is released by the completion of an in-flight source, in every context -/
+theorem c14_destroy_released_by_completion (c : Cfg) (s : State) (k : Nat) (hw : s.ag = Ag.drainWait)
+    (hk : s.st k = SSt.inflight)
+    (hp : c.script k (s.pc k) ≠ some Act.await ∧ c.script k (s.pc k) ≠ some Act.awaitRead) :
+    (step c s (Op.resolve k)).ag = Ag.draining ∧ (step c s (Op.resolve k)).q = s.q ++ [k] := by
+  obtain ⟨l, hl⟩ := lateRead_eq c s k
+  simp only [step, stepResolve, hk, if_true, hl]
+  unfold srcRun push
+  split <;> simp_all
+
+/-- **AS-IS, /repo commit 2010fed** (`aggStepAsIs`: the drain used `_queue.pop().wait()`): in exactly the situation of
+`c14_destroy_blocks_in_any_context`, when the aggregate was dropped by a running coroutine, the destructor ran into
+the library's assertion instead of waiting. -/
+theorem c14_destroy_asis_aborts (c : Cfg) (s : State) (hd : s.ag = Ag.draining) (hc : 1 < s.count) (hq : s.q = [])
+    (hco : s.dcoro = true) : (aggStepAsIs c s).ag = Ag.aborted := by
+  unfold aggStepAsIs; simp [hd, hc, hq, hco]
 
 /-- when the controller destructor leaves its loop nothing is outstanding: no source is in flight or has a callback
 in the queue, so the frames (callbacks, queue, sources) can be destroyed; the next step destroys them -/
@@ -310,9 +417,20 @@ example : (run exCfg init ([Op.next 100] ++ aggs 5 ++ [Op.next 101] ++ aggs 2 ++
 example : (run exCfg init ([Op.next 100] ++ aggs 5 ++ [Op.next 101] ++ aggs 2 ++ [Op.resolve 1] ++ [Op.next 102] ++ aggs 2)).got 2
     = [100, 102] := by decide
 /-- early destruction with source 1 in flight: the destructor blocks, is released by the completion, pops 2 -/
-example : (run exCfg init ([Op.next 100] ++ aggs 5 ++ [Op.destroy] ++ aggs 2)).ag = Ag.drainWait := by decide
-example : (run exCfg init ([Op.next 100] ++ aggs 5 ++ [Op.destroy] ++ aggs 2 ++ [Op.resolve 1] ++ aggs 2)).ag = Ag.destroyed
-    ∧ (run exCfg init ([Op.next 100] ++ aggs 5 ++ [Op.destroy] ++ aggs 2 ++ [Op.resolve 1] ++ aggs 2)).drained = 2 := by decide
+example : (run exCfg init ([Op.next 100] ++ aggs 5 ++ [Op.destroy false] ++ aggs 2)).ag = Ag.drainWait := by decide
+example : (run exCfg init ([Op.next 100] ++ aggs 5 ++ [Op.destroy false] ++ aggs 2 ++ [Op.resolve 1] ++ aggs 2)).ag = Ag.destroyed
+    ∧ (run exCfg init ([Op.next 100] ++ aggs 5 ++ [Op.destroy false] ++ aggs 2 ++ [Op.resolve 1] ++ aggs 2)).drained = 2 := by decide
+/-- the same from inside a running coroutine: blocks, is released, frees everything -/
+example : (run exCfg init ([Op.next 100] ++ aggs 5 ++ [Op.destroy true] ++ aggs 2)).ag = Ag.drainWait
+    ∧ (run exCfg init ([Op.next 100] ++ aggs 5 ++ [Op.destroy true] ++ aggs 2 ++ [Op.resolve 1] ++ aggs 2)).ag = Ag.destroyed
+    ∧ (run exCfg init ([Op.next 100] ++ aggs 5 ++ [Op.destroy true] ++ aggs 2 ++ [Op.resolve 1] ++ aggs 2)).badDestroy = [] := by
+  decide
+/-- **AS-IS witness, /repo commit 2010fed**: the aggregate (source 1 in flight) is dropped by a running coroutine; the
+code as it was aborts in `wait()`'s assertion with source 1 still in flight instead of waiting for it. -/
+theorem c14_destroy_asis_aborts_in_coroutine :
+    (runAsIs exCfg init ([Op.next 100] ++ aggs 5 ++ [Op.destroy true] ++ aggs 2)).ag = Ag.aborted
+    ∧ (runAsIs exCfg init ([Op.next 100] ++ aggs 5 ++ [Op.destroy true] ++ aggs 2)).st 1 = SSt.inflight
+    ∧ (runAsIs exCfg init ([Op.next 100] ++ aggs 5 ++ [Op.destroy false] ++ aggs 2)).ag = Ag.drainWait := by decide
 /-- the exception of source 1 is reported after source 0's value was delivered -/
 example : (run exCfg2 init ([Op.next 0] ++ aggs 4 ++ [Op.resolve 1] ++ [Op.next 0] ++ aggs 4)).ag = Ag.failed 7
     ∧ (run exCfg2 init ([Op.next 0] ++ aggs 4 ++ [Op.resolve 1] ++ [Op.next 0] ++ aggs 4)).out = [(0, 10)] := by decide
